@@ -4,7 +4,7 @@
   Theorems about the model `Kust.Match.pathMatch`, tied to `yaml.PathMatcher` by the correspondence `match.path`.
   `hit` (Go regexp on the serialised scalar) and `ns` are parameters of every statement.
 -/
-import Kust.Lemmas.Match
+import Kust.Lemmas.Match3
 namespace Kust.C14
 open Kust Node Fns Kust.Match
 
@@ -170,5 +170,21 @@ example :
       denote hitB ["items", "*", "v"] doc
         = [[.key "items", .idx 0, .key "v"], [.key "items", .idx 1, .key "v"], [.key "items", .idx 2, .key "v"]] := by
   decide
+
+
+/-- **every position the matcher reports addresses a node of the document it returns** — with creation or without,
+    for every path without empty parts, every document, every creation kind and every behaviour of the
+    regular-expression test (the replacement filter then writes at exactly these positions) -/
+theorem match_positions_resolve_create (hit : String → Node → Out Bool) (ns : String → Bool) (c : Nat)
+    (p : List String) (hp : "" ∉ p) (d d' : Node) (ps : List Pos) (h : pathMatch hit ns c p d = .ok (d', ps)) :
+    ∀ pos ∈ ps, (getAt pos d').isSome :=
+  pathMatch_resolves hit ns c p hp d d' ps h
+
+/-- creation is exercised: `[name=new]` on a list without such an element appends `{name: new}` and reports it -/
+example : pathMatch (fun pat n => .ok (match n with | .scalar _ v _ => v = pat | _ => false)) (fun _ => false) 1
+    ["items", "[name=new]", "v"] (.map 0 [("items", .seq 0 [.map 0 [("name", .scalar "!!str" "a" 0)]])])
+    = .ok (.map 0 [("items", .seq 0 [.map 0 [("name", .scalar "!!str" "a" 0)],
+              .map 0 [("name", .scalar "" "new" 0), ("v", .scalar "" "" 0)]])],
+           [[.key "items", .idx 1, .key "v"]]) := by decide
 
 end Kust.C14
